@@ -25,6 +25,7 @@ instead: `drift_le_locks_between_epochs_witness` (one unit stays staked with no 
 of the sum).
 -/
 import OsmoVerif.Proofs.SuperfluidDrift
+import OsmoVerif.Proofs.SuperfluidStkKeep
 
 namespace OsmoVerif.Props.C11
 open OsmoVerif.Superfluid OsmoVerif.Num
@@ -457,5 +458,373 @@ example : ((run w0 (wOps ++ [.undelegate 0 1])).synths 1 = [mkU 100 (0, 0) 101])
     ((run w0 (wOps ++ [.undelegate 0 1, .unbond 0 1, .advance 100, .withdraw 1])).locks 1).isNone = true := by
   decide +kernel
 example : errOf (applyOp (run w0 wOps) (.beginUnlock 0 1 none)) = some .synth := by decide +kernel
+
+/-! # Validators at any exchange rate, slashes included
+
+The theorems below are over `Model/SuperfluidStaking.lean` (the model the driver runs): the staking ledger of the
+first part is replaced by cosmos-sdk's share arithmetic — validators with `Tokens` and `DelegatorShares`, delegations
+as shares, `Delegate` / `InstantUndelegate` / `Slash` with the SDK's roundings — and histories are lists of `OpS`:
+every call of the first part, validator slashes, and epochs with the store's iteration order of the intermediary
+accounts as an input.  `SState.b` is the lockup / marker / bank state of the first part, `SState.k` the staking state.
+All statements quantify over ALL such histories `runS s₀ ops` from any state whose `b` satisfies `Inv`. -/
+
+/-- the invariant of the lockup / marker state holds along every history, whatever the validators' exchange rates
+and however often they are slashed. -/
+theorem reach_inv_slashed {s₀ : SState} (h : Inv s₀.b) (ops : List OpS) : Inv (runS s₀ ops).b := inv_runS ops s₀ h
+
+theorem failed_op_noop_slashed {s : SState} {op : OpS} {e : Err} (h : applyOpS s op = .error e) : stepS s op = s := by
+  unfold stepS; rw [h]
+
+/-! ## supply -/
+
+/-- **mint offsets exactly the minted amount.** -/
+theorem mint_offsets_minted {s s' : SState} {a : Int} {key : AccKey} (h : mintS s a key = .ok s') :
+    s'.b.supply = s.b.supply + a ∧ s'.b.offset = s.b.offset - a := by
+  obtain ⟨_, _, _, v', issued, d', _, _, hs'⟩ := mintS_ok h
+  subst hs'; exact ⟨rfl, rfl⟩
+
+/-- **burn offsets exactly the burnt amount** — the amount `RemoveDelShares` actually paid out (`got`), which the
+share arithmetic may truncate below the requested `a` (`burn_pays_less_than_requested_witness`). -/
+theorem burn_offsets_burnt {s s' : SState} {a : Int} {key : AccKey} (h : burnS s a key = .ok s') :
+    ∃ got, s'.b.supply = s.b.supply - got ∧ s'.b.offset = s.b.offset + got := by
+  rcases (burnS_ok h).2 with ⟨_, hs'⟩ | ⟨d, sh, d', v', got, _, _, _, _, _, _, hs'⟩
+  · subst hs'; exact ⟨0, by omega, by omega⟩
+  · subst hs'; exact ⟨got, rfl, rfl⟩
+
+/-- **the reported OSMO supply (bank supply + offset) is unchanged by every superfluid call and every epoch, from
+every state**; a validator slash lowers it by exactly the amount the staking keeper burns. -/
+theorem reported_supply_step {s s' : SState} {op : OpS} (h : Inv s.b) (hc : applyOpS s op = .ok s') :
+    tot s'.b = tot s.b - burntBy s op ∧ (isSlash op = false → burntBy s op = 0) := by
+  refine ⟨tot_applyOpS h hc, ?_⟩
+  intro hs
+  cases op with
+  | slash _ _ _ _ => cases hs
+  | base _ => rfl
+  | epochO _ _ => rfl
+
+/-- **along every history** (by induction over the calls): reported supply = initial − Σ burnt by slashes; in
+particular it is constant along every history without slash, at any exchange rates the state starts with. -/
+theorem reported_supply_invariant {s₀ : SState} (h : Inv s₀.b) (ops : List OpS) :
+    tot (runS s₀ ops).b = tot s₀.b - burntAlong s₀ ops ∧
+    ((∀ op, op ∈ ops → isSlash op = false) → tot (runS s₀ ops).b = tot s₀.b) := by
+  refine ⟨tot_runS ops s₀ h, ?_⟩
+  intro hns
+  rw [tot_runS ops s₀ h, burntAlong_noSlash ops s₀ hns]; omega
+
+/-- a slash burns between 0 and the validator's tokens, takes them from the bank supply (never through the offset),
+and changes neither a marker, nor a connection, nor a delegation record, nor the validator's shares. -/
+theorem slash_effect {s s' : SState} {val : Nat} {p fr : Int} {skip : List Nat} {burn : Int} (h : Inv s.b)
+    (hc : slashS s val p fr skip = .ok (s', burn)) :
+    0 ≤ burn ∧ s'.b.offset = s.b.offset ∧ s'.b.supply = s.b.supply - burn ∧ s'.b.synths = s.b.synths ∧ s'.b.conns = s.b.conns ∧
+    s'.k.dsh = s.k.dsh ∧ (∀ i, (s'.k.val i).shares = (s.k.val i).shares) ∧
+    (s'.k.val val).tokens = (s.k.val val).tokens - burn := by
+  have hb := (tot_slashS h hc).2
+  rcases slashS_ok h hc with ⟨e0, e⟩ | ⟨_, _, _, _, b1, _, f1, e⟩
+  · subst e; subst e0
+    exact ⟨hb, rfl, by omega, rfl, rfl, rfl, fun _ => rfl, by omega⟩
+  · subst e
+    refine ⟨hb, f1.bank.2, ?_, f1.synths, f1.conns, rfl, ?_, ?_⟩
+    · show b1.supply - burn = s.b.supply - burn; rw [f1.bank.1]
+    · intro i
+      show ((upd s.k.val val _) i).shares = _
+      unfold upd; split
+      · rename_i e; subst e; rfl
+      · rfl
+    · show ((upd s.k.val val _) val).tokens = _
+      simp [upd]
+
+/-! ## markers and time locks, with slashes -/
+
+theorem one_staking_marker_per_delegated_lock_slashed {s₀ : SState} (h : Inv s₀.b) (ops : List OpS) (id : Nat) (k : AccKey)
+    (hc : (runS s₀ ops).b.conns id = some k) :
+    (runS s₀ ops).b.synths id = [mkB (runS s₀ ops).b.unbondingTime k] ∧
+    ∃ l, (runS s₀ ops).b.locks id = some l ∧ l.single = true ∧ l.denom = k.1 ∧ l.endTime = none ∧
+      (runS s₀ ops).b.unbondingTime ≤ l.duration ∧ 0 < l.amount := by
+  obtain ⟨l, hl, hs, hsg, hd, hk, he, hp⟩ := (reach_inv_slashed h ops).conn_lock hc
+  exact ⟨hs, l, hl, hsg, hk.symm, he, hd, hp⟩
+
+/-- state-level form of the marker clauses: everything follows from the invariant of the reached state. -/
+theorem marker_clauses_of_inv {b : State} (hi : Inv b) (id : Nat) :
+    (b.synths id).length ≤ 1 ∧
+    (∀ x, x ∈ b.synths id → x.kind = .bonding → b.conns id = some x.key) ∧
+    (∀ x, x ∈ b.synths id → x.kind = .unbonding →
+      x.duration = b.unbondingTime ∧ b.conns id = none ∧
+      ∃ e l, x.endTime = some e ∧ e ≤ b.now + b.unbondingTime ∧ b.locks id = some l ∧ ∀ le, l.endTime = some le → e ≤ le) := by
+  have hok := hi.lockOK id
+  unfold LockOK at hok
+  split at hok
+  · rw [hok.1]
+    exact ⟨by simp, (fun x hx => by cases hx), (fun x hx => by cases hx)⟩
+  · rename_i l hl
+    rcases hok.2 with h1 | ⟨k, h2, h3, _⟩ | ⟨k, e, h2, h3, _, _, h6, h7⟩
+    · rw [h1.1]
+      exact ⟨by simp, (fun x hx => by cases hx), (fun x hx => by cases hx)⟩
+    · rw [h2]
+      refine ⟨by simp, ?_, ?_⟩
+      · intro x hx _; simp only [List.mem_singleton] at hx; subst hx; exact h3
+      · intro x hx hu; simp only [List.mem_singleton] at hx; subst hx; simp [mkB] at hu
+    · rw [h2]
+      refine ⟨by simp, ?_, ?_⟩
+      · intro x hx hb; simp only [List.mem_singleton] at hx; subst hx; simp [mkU] at hb
+      · intro x hx _; simp only [List.mem_singleton] at hx; subst hx
+        exact ⟨rfl, h3, e, l, rfl, h6, hl, h7⟩
+
+/-- **markers with slashes**: on every reachable state no lock carries two synthetic locks, a staking marker sits
+only on a lock connected to the marker's account, and an unstaking marker lasts the unbonding time, has an end time
+no later than now + unbonding time and no later than the lock's own end. -/
+theorem marker_clauses_slashed {s₀ : SState} (h : Inv s₀.b) (ops : List OpS) (id : Nat) :
+    ((runS s₀ ops).b.synths id).length ≤ 1 ∧
+    (∀ x, x ∈ (runS s₀ ops).b.synths id → x.kind = .bonding → (runS s₀ ops).b.conns id = some x.key) ∧
+    (∀ x, x ∈ (runS s₀ ops).b.synths id → x.kind = .unbonding →
+      x.duration = (runS s₀ ops).b.unbondingTime ∧ (runS s₀ ops).b.conns id = none ∧
+      ∃ e l, x.endTime = some e ∧ e ≤ (runS s₀ ops).b.now + (runS s₀ ops).b.unbondingTime ∧
+        (runS s₀ ops).b.locks id = some l ∧ ∀ le, l.endTime = some le → e ≤ le) :=
+  marker_clauses_of_inv (reach_inv_slashed h ops) id
+
+/-- **undelegating creates the unstaking marker, ending exactly one unbonding time later**, at any exchange rate. -/
+theorem unstaking_marker_lasts_unbonding_period_slashed {s s' : SState} {sender id : Nat} (h : Inv s.b)
+    (hc : superfluidUndelegateS s sender id = .ok s') :
+    ∃ k, s.b.conns id = some k ∧ s'.b.conns id = none ∧
+      s'.b.synths id = [mkU s.b.unbondingTime k (s.b.now + s.b.unbondingTime)] := by
+  obtain ⟨s1, key, b', h1, hb, hs'⟩ := superfluidUndelegateS_ok hc
+  subst hs'
+  obtain ⟨l, s2, amt, hl, _, _, hk, h3, _, h5⟩ := undelegateCommonS_ok h1
+  obtain ⟨f1, f2, f3, _, _⟩ := undelegateCommonS_lock h h1
+  obtain ⟨_, l', _, _, _, hs'⟩ := createSynth_ok hb
+  have hconn : s1.b.conns id = none := by
+    rw [(burnS_bank h5).same.conns]
+    obtain ⟨_, _, _, _, hs2⟩ := deleteSynth_ok h3
+    subst hs2
+    dsimp only
+    simp [upd]
+  subst hs'
+  refine ⟨key, hk, hconn, ?_⟩
+  dsimp only
+  simp only [upd, if_true, mkU, f2, f3]
+
+/-- **… and the unstaking marker stays until it has matured**: no call — and no validator slash — removes an unstaking
+marker whose end time lies in the future. -/
+theorem unstaking_marker_survives_until_matured_slashed {s₀ : SState} (h : Inv s₀.b) (ops : List OpS) (op : OpS) (id : Nat) (x : Synth)
+    (hx : x ∈ (runS s₀ ops).b.synths id) (hu : x.kind = .unbonding) (hnm : isMatured (runS s₀ ops).b.now x = false) :
+    x ∈ (stepS (runS s₀ ops) op).b.synths id := by
+  unfold stepS
+  split
+  · rename_i s' hs; exact keep_applyOpS (reach_inv_slashed h ops) hs hx hu hnm
+  · exact hx
+
+/-- **a lock cannot start unlocking while it is superfluid-delegated or undelegating**, at any exchange rate and
+after any slashes. -/
+theorem no_begin_unlock_with_marker_slashed {s₀ : SState} (_h : Inv s₀.b) (ops : List OpS) (id : Nat) (x : Synth)
+    (hx : x ∈ (runS s₀ ops).b.synths id) (sender : Nat) (coins : Option Int) :
+    ∃ e, applyOpS (runS s₀ ops) (.base (.beginUnlock sender id coins)) = .error e := by
+  have : ∃ e, msgBeginUnlocking (runS s₀ ops).b sender id coins = .error e := by
+    unfold msgBeginUnlocking
+    split
+    · exact ⟨_, rfl⟩
+    · split
+      · exact ⟨_, rfl⟩
+      · split
+        · exact ⟨_, rfl⟩
+        · rename_i hs; rw [hs] at hx; cases hx
+  obtain ⟨e, he⟩ := this
+  refine ⟨e, ?_⟩
+  show ((msgBeginUnlocking (runS s₀ ops).b sender id coins).map _).map _ = _
+  rw [he]; rfl
+
+theorem no_begin_unlock_while_delegated_slashed {s₀ : SState} (h : Inv s₀.b) (ops : List OpS) (id : Nat) (k : AccKey)
+    (hc : (runS s₀ ops).b.conns id = some k) (sender : Nat) (coins : Option Int) :
+    ∃ e, applyOpS (runS s₀ ops) (.base (.beginUnlock sender id coins)) = .error e := by
+  obtain ⟨hs, _⟩ := one_staking_marker_per_delegated_lock_slashed h ops id k hc
+  exact no_begin_unlock_with_marker_slashed h ops id _ (by rw [hs]; exact List.mem_singleton.mpr rfl) sender coins
+
+/-- state-level: a lock with an unmatured unstaking marker, or a delegated lock, cannot be withdrawn. -/
+theorem withdraw_fails_of_inv {b : State} (hi : Inv b) (id : Nat)
+    (hcase : (∃ k, b.conns id = some k) ∨ ∃ x e, x ∈ b.synths id ∧ x.kind = .unbonding ∧ x.endTime = some e ∧ b.now < e) :
+    ∃ err, withdraw b id = .error err := by
+  unfold withdraw
+  cases hsw : sweepSynths b b.lastLockId with
+  | error err => exact ⟨err, rfl⟩
+  | ok s1 =>
+    obtain ⟨_, f1, _, _⟩ := inv_sweepSynths hi _ s1 hsw
+    dsimp only
+    unfold unlockMatured
+    rcases hcase with ⟨k, hc⟩ | ⟨x, e, hx, hu, he, hnm⟩
+    · obtain ⟨l, hl, _, _, _, _, hend, _⟩ := hi.conn_lock hc
+      rw [f1.locks, hl]
+      dsimp only
+      rw [hend]
+      exact ⟨_, rfl⟩
+    · obtain ⟨_, _, hun⟩ := marker_clauses_of_inv hi id
+      obtain ⟨_, _, e', l, he', _, hl, hle⟩ := hun x hx hu
+      rw [he] at he'; injection he' with he'; subst he'
+      rw [f1.locks, hl]
+      dsimp only
+      cases hend : l.endTime with
+      | none => exact ⟨_, rfl⟩
+      | some le =>
+        have := hle le hend
+        dsimp only
+        rw [f1.now, if_pos (by omega)]
+        exact ⟨_, rfl⟩
+
+/-- **a lock cannot be withdrawn while delegated, nor before its undelegation has matured**, at any exchange rate and
+after any slashes. -/
+theorem no_withdraw_before_undelegation_matured_slashed {s₀ : SState} (h : Inv s₀.b) (ops : List OpS) (id : Nat)
+    (hcase : (∃ k, (runS s₀ ops).b.conns id = some k) ∨
+      ∃ x e, x ∈ (runS s₀ ops).b.synths id ∧ x.kind = .unbonding ∧ x.endTime = some e ∧ (runS s₀ ops).b.now < e) :
+    ∃ err, applyOpS (runS s₀ ops) (.base (.withdraw id)) = .error err := by
+  obtain ⟨err, he⟩ := withdraw_fails_of_inv (reach_inv_slashed h ops) id hcase
+  refine ⟨err, ?_⟩
+  show ((withdraw (runS s₀ ops).b id).map _).map _ = _
+  rw [he]; rfl
+
+/-! ## the refresh at any exchange rate -/
+
+/-- **`refresh_recreates_missing_delegation`** — an intermediary account with NO delegation record (everything was
+force-undelegated at an earlier epoch) and expected amount `e > 0` is topped up by the refresh: `e` is minted and
+offset, and the delegation is re-created with `⌊S·e/T⌋` shares of a validator with `T` tokens and `S` shares, whose
+exact token worth is at most `e` and misses `e` by less than `T'/S'` < one unit (`…·S' < …·S' + T`, cross-multiplied);
+no other delegation record changes. -/
+theorem refresh_recreates_missing_delegation {s s' : SState} {key : AccKey} {e : Int} {v' : Val} {issued : Int}
+    (hv : key.2 ∈ s.b.validators) (hn : s.k.dsh key = none) (he : expectedDelegation s.b key = .ok e) (hpos : 0 < e)
+    (hT : 0 < (s.k.val key.2).tokens) (hS : 0 < (s.k.val key.2).shares)
+    (hadd : (s.k.val key.2).addTokensFromDel e = some (v', issued)) (hrange : chkDec issued = some issued)
+    (hc : refreshOneS s key = .ok s') :
+    s'.k.dsh key = some issued ∧ s'.b.supply = s.b.supply + e ∧ s'.b.offset = s.b.offset - e ∧
+    (s'.k.val key.2).tokens = (s.k.val key.2).tokens + e ∧ (s'.k.val key.2).shares = (s.k.val key.2).shares + issued ∧
+    issued * (s'.k.val key.2).tokens ≤ e * (s'.k.val key.2).shares ∧
+    e * (s'.k.val key.2).shares < issued * (s'.k.val key.2).tokens + (s.k.val key.2).tokens ∧
+    (∀ k', k' ≠ key → s'.k.dsh k' = s.k.dsh k') := by
+  obtain ⟨h1, h2, h3, h4, h5⟩ := refreshOneS_missing hv hn he hpos hT hadd hrange hc
+  obtain ⟨a1, a2, a3⟩ := addTokensFromDel_ok hT hS hadd
+  obtain ⟨b1, b2, _⟩ := sharesFromTokens_floor hT (Int.le_of_lt hS) (Int.le_of_lt hpos) a1
+  obtain ⟨c1, c2⟩ := recreated_stake_bounds hT hS (Int.le_of_lt hpos) b1 b2
+  rw [h2, a2, a3]
+  exact ⟨h1, h3, h4, rfl, rfl, c1, c2, h5⟩
+
+/-- … and at exchange rate one (`S = T·10¹⁸`) the re-created stake is exactly `e`: `e·10¹⁸` shares. -/
+theorem refresh_recreates_missing_delegation_rate_one {s s' : SState} {key : AccKey} {e : Int} {v' : Val} {issued : Int}
+    (hv : key.2 ∈ s.b.validators) (hn : s.k.dsh key = none) (he : expectedDelegation s.b key = .ok e) (hpos : 0 < e)
+    (hT : 0 < (s.k.val key.2).tokens) (hrate : (s.k.val key.2).shares = (s.k.val key.2).tokens * P18)
+    (hadd : (s.k.val key.2).addTokensFromDel e = some (v', issued)) (hrange : chkDec issued = some issued)
+    (hc : refreshOneS s key = .ok s') :
+    s'.k.dsh key = some (e * P18) ∧ (s'.k.val key.2).shares = (s'.k.val key.2).tokens * P18 := by
+  have hS : 0 < (s.k.val key.2).shares := by
+    rw [hrate]; exact Int.mul_pos hT (by decide)
+  obtain ⟨h1, h2, _, _, _⟩ := refreshOneS_missing hv hn he hpos hT hadd hrange hc
+  obtain ⟨a1, a2, a3⟩ := addTokensFromDel_ok hT hS hadd
+  obtain ⟨b1, b2, _⟩ := sharesFromTokens_floor hT (Int.le_of_lt hS) (Int.le_of_lt hpos) a1
+  rw [hrate] at b1 b2
+  have hi := recreated_stake_exact_at_rate_one hT b1 b2
+  rw [h2, a2, a3, hrate, hi]
+  refine ⟨by rw [h1, hi], ?_⟩
+  rw [Int.add_mul]
+
+
+/-! ## witnesses and non-vacuity over the staking model -/
+
+/-- `w0` (multiplier 2.5, risk factor 0.5, unbonding time 100) with bank supply 2 000 000 and one validator holding
+1 000 000 tokens at exchange rate one. -/
+def wS0 : SState :=
+  { b := { w0 with supply := 2000000 },
+    k := { val := fun _ => { tokens := 1000000, shares := 1000000 * P18 }, dsh := fun _ => none } }
+
+/-- the delegation shares of account (0,0) and its stake as users see it (`TokensFromShares(shares).TruncateInt()`). -/
+def shares00 (s : SState) : Option Int := s.k.dsh (0, 0)
+def stake00 (s : SState) : Option Int := (s.k.dsh (0, 0)).bind ((s.k.val 0).stakeTrunc)
+
+example : Inv wS0.b := (init_inv w0_init).ledger_frame _ _ _
+
+/-- "dust and recover" at exchange rate one: one share worth 1 uosmo is delegated and refreshed; the price falls
+tenfold and the epoch force-undelegates everything — the delegation record is gone. -/
+def dustOps : List OpS :=
+  [.base (.lock 0 0 1 100 true), .base (.delegate 0 1 0), .epochO [(0, 250, 100 * P18, false)] [(0, 0)],
+   .epochO [(0, 25, 100 * P18, false)] [(0, 0)]]
+
+/-- … the price recovers and the next epoch re-creates the delegation from nothing (`epochO` carries the store's
+iteration order of the intermediary accounts). -/
+theorem dust_and_recover_example :
+    (shares00 (runS wS0 (dustOps.take 3)) = some P18 ∧ stake00 (runS wS0 (dustOps.take 3)) = some 1 ∧
+      (runS wS0 (dustOps.take 3)).b.supply = 2000001 ∧ (runS wS0 (dustOps.take 3)).b.offset = -1) ∧
+    (shares00 (runS wS0 dustOps) = none ∧ ((runS wS0 dustOps).k.val 0).tokens = 1000000 ∧
+      ((runS wS0 dustOps).k.val 0).shares = 1000000 * P18 ∧ (runS wS0 dustOps).b.supply = 2000000 ∧
+      (runS wS0 dustOps).b.offset = 0 ∧ (expectedDelegation (runS wS0 dustOps).b (0, 0)).toOption = some 0) ∧
+    (shares00 (runS wS0 (dustOps ++ [.epochO [(0, 250, 100 * P18, false)] [(0, 0)]])) = some P18 ∧
+      stake00 (runS wS0 (dustOps ++ [.epochO [(0, 250, 100 * P18, false)] [(0, 0)]])) = some 1 ∧
+      (runS wS0 (dustOps ++ [.epochO [(0, 250, 100 * P18, false)] [(0, 0)]])).b.supply = 2000001 ∧
+      (runS wS0 (dustOps ++ [.epochO [(0, 250, 100 * P18, false)] [(0, 0)]])).b.offset = -1) := by
+  decide +kernel
+
+/-- the hypotheses of `refresh_recreates_missing_delegation` are met there: validator known, no record, and after the
+multiplier update of the recovering epoch the expected amount is 1. -/
+example : (0, 0).2 ∈ (runS wS0 dustOps).b.validators ∧ (runS wS0 dustOps).k.dsh (0, 0) = none ∧
+    ((updateMults (runS wS0 dustOps).b [(0, 250, 100 * P18, false)]).toOption.bind
+      fun r => (expectedDelegation r.1 (0, 0)).toOption) = some 1 ∧
+    0 < ((runS wS0 dustOps).k.val 0).tokens ∧ 0 < ((runS wS0 dustOps).k.val 0).shares := by
+  decide +kernel
+
+/-- the validator is slashed by a third (666 667 tokens left for 10²⁴ raw shares) BEFORE the one-share lock is
+delegated. -/
+def slashOps : List OpS :=
+  [.slash 0 1000000 333333333333333333 [], .base (.lock 0 0 1 100 true), .base (.delegate 0 1 0)]
+
+/-- FULL claim “the stake is exactly the expected amount after the refresh” (likewise “delegating stakes the value of
+the lock”) is FALSE at an exchange rate ≠ 1: the code mints 1 uosmo, the delegation gets ⌊10²⁴/666667⌋ raw shares
+whose token worth is 0.999 999 25…, shown to users as 0; the refresh leaves it so, because it reads the current amount
+ROUNDED (`RoundInt(0.999 999 25) = 1 =` expected).  What holds instead: `refresh_recreates_missing_delegation`. -/
+theorem refresh_exact_at_rate_ne_one_witness :
+    shares00 (runS wS0 slashOps) = some 1499999250000374999 ∧ stake00 (runS wS0 slashOps) = some 0 ∧
+    ((runS wS0 slashOps).k.val 0).tokens = 666668 ∧ ((runS wS0 slashOps).k.val 0).shares = 1000001499999250000374999 ∧
+    (runS wS0 slashOps).b.offset = -1 ∧ (expectedDelegation (runS wS0 slashOps).b (0, 0)).toOption = some 1 ∧
+    shares00 (runS wS0 (slashOps ++ [.epochO [(0, 250, 100 * P18, false)] [(0, 0)]])) = some 1499999250000374999 ∧
+    stake00 (runS wS0 (slashOps ++ [.epochO [(0, 250, 100 * P18, false)] [(0, 0)]])) = some 0 := by
+  decide +kernel
+
+/-- **the burn pays out less than requested**: undelegating that lock asks for 1 uosmo back, the shares are worth
+0.999…, `InstantUndelegate` pays 0 — supply and offset move by the 0 actually burnt, not by the 1 requested (an offset
+by the requested amount would raise the reported supply by 1).  The delegation record is gone; the minted uosmo stays
+with the validator (and its offset −1 stays too). -/
+theorem burn_pays_less_than_requested_witness :
+    shares00 (runS wS0 (slashOps ++ [.base (.undelegate 0 1)])) = none ∧
+    ((runS wS0 (slashOps ++ [.base (.undelegate 0 1)])).k.val 0).tokens = 666668 ∧
+    (runS wS0 (slashOps ++ [.base (.undelegate 0 1)])).b.supply = (runS wS0 slashOps).b.supply ∧
+    (runS wS0 (slashOps ++ [.base (.undelegate 0 1)])).b.offset = (runS wS0 slashOps).b.offset ∧
+    tot (runS wS0 (slashOps ++ [.base (.undelegate 0 1)])).b = tot (runS wS0 slashOps).b := by
+  decide +kernel
+
+/-- one share worth 1 uosmo is delegated, THEN the validator is slashed by a third (the stake is worth 0.666…; the
+lock keeps its share: ⌊1·⅓⌋ = 0), then the price falls tenfold. -/
+def stuckOps : List OpS :=
+  [.base (.lock 0 0 1 100 true), .base (.delegate 0 1 0), .slash 0 1000000 333333333333333333 [],
+   .epochO [(0, 25, 100 * P18, false)] [(0, 0)]]
+
+/-- FULL claim “after the refresh the stake matches the expected amount” is FALSE at an exchange rate ≠ 1 in a
+second way: the expected amount is 0, the refresh reads the current amount as `RoundInt(0.666…) = 1`, asks to
+force-undelegate 1 uosmo, the shares for 1 uosmo (1.49…) exceed the delegation's (1), `ValidateUnbondAmount` fails
+("invalid shares amount"), the error is only logged — the stake stays.  It stays after the lock has undelegated and
+through every later epoch: 10¹⁸ raw shares with NO lock connected, expected amount 0. -/
+theorem refresh_burn_rejected_witness :
+    shares00 (runS wS0 stuckOps) = some P18 ∧ (expectedDelegation (runS wS0 stuckOps).b (0, 0)).toOption = some 0 ∧
+    errOf (burnS (runS wS0 stuckOps) 1 (0, 0)) = some .other ∧
+    shares00 (runS wS0 (stuckOps ++ [.base (.undelegate 0 1), .epochO [(0, 25, 100 * P18, false)] [(0, 0)]])) = some P18 ∧
+    (runS wS0 (stuckOps ++ [.base (.undelegate 0 1), .epochO [(0, 25, 100 * P18, false)] [(0, 0)]])).b.conns 1 = none ∧
+    (runS wS0 (stuckOps ++ [.base (.undelegate 0 1), .epochO [(0, 25, 100 * P18, false)] [(0, 0)]])).b.offset = -1 := by
+  decide +kernel
+
+/-- a lock of 1000 shares worth 1250 uosmo is delegated, then the validator is slashed by a third. -/
+def slash2Ops : List OpS :=
+  [.base (.lock 0 0 1000 100 true), .base (.delegate 0 1 0), .slash 0 1000000 333333333333333333 []]
+
+/-- FULL claim “between refreshes the stake is within one unit per lock of the value of the delegated locks” is FALSE
+after a slash: the slash cuts the lock to 668 shares (worth 835) and the stake to 833.85… — `AfterValidatorSlashed`,
+which would refresh the stake, is never called by this SDK version; the next epoch mints the difference.  (With a
+larger multiplier the gap grows in proportion: each lock keeps up to one share more than its stake paid for.) -/
+theorem stake_after_slash_witness :
+    stake00 (runS wS0 slash2Ops) = some 833 ∧ ((runS wS0 slash2Ops).b.locks 1).map (·.amount) = some 668 ∧
+    (expectedDelegation (runS wS0 slash2Ops).b (0, 0)).toOption = some 835 ∧
+    (runS wS0 slash2Ops).b.supply = 2000000 + 1250 - 333333 ∧ (runS wS0 slash2Ops).b.offset = -1250 ∧
+    stake00 (runS wS0 (slash2Ops ++ [.epochO [(0, 250, 100 * P18, false)] [(0, 0)]])) = some 834 ∧
+    (runS wS0 (slash2Ops ++ [.epochO [(0, 250, 100 * P18, false)] [(0, 0)]])).b.offset = -1251 := by
+  decide +kernel
 
 end OsmoVerif.Props.C11
